@@ -14,8 +14,10 @@ from .extract import AnchorLost
 
 VERIF = os.path.dirname(os.path.dirname(os.path.abspath(__file__)))
 REPO = os.environ.get('VERIF_REPO', '/repo')
-EVID = os.path.join(VERIF, 'evidence')
-REPLAY = os.path.join(VERIF, 'replay')
+# checks of a seeded/mutated tree (bin/seedtest) write their evidence and replay files next to the seed,
+# so the committed evidence always describes /repo itself
+EVID = os.environ.get('VERIF_EVIDENCE_DIR') or os.path.join(VERIF, 'evidence')
+REPLAY = os.environ.get('VERIF_REPLAY_DIR') or os.path.join(VERIF, 'replay')
 KNOWN = os.path.join(VERIF, 'known_findings.json')
 BASELINE = os.path.join(VERIF, 'verus', 'baseline_obligations.json')
 
